@@ -1,0 +1,39 @@
+//go:build verif && linux && !appengine
+
+package fsnotify
+
+// VerifWatch is a copy of one bookkeeping entry.
+type VerifWatch struct {
+	Wd      uint32
+	Flags   uint32
+	Path    string
+	Recurse bool
+}
+
+// VerifInotifyFd returns the inotify descriptor of w.
+func VerifInotifyFd(w *Watcher) int { return w.b.(*inotify).fd }
+
+// VerifTables returns copies of the wd and path tables, taken under the lock.
+func VerifTables(w *Watcher) (map[uint32]VerifWatch, map[string]uint32) {
+	i := w.b.(*inotify)
+	i.mu.Lock()
+	defer i.mu.Unlock()
+	wd := make(map[uint32]VerifWatch, len(i.watches.wd))
+	for k, v := range i.watches.wd {
+		if v == nil {
+			wd[k] = VerifWatch{Wd: ^uint32(0), Path: "<nil>"}
+			continue
+		}
+		wd[k] = VerifWatch{Wd: v.wd, Flags: v.flags, Path: v.path, Recurse: v.recurse}
+	}
+	path := make(map[string]uint32, len(i.watches.path))
+	for k, v := range i.watches.path {
+		path[k] = v
+	}
+	return wd, path
+}
+
+// VerifNewEvent runs the native-mask translation of w's backend.
+func VerifNewEvent(w *Watcher, name string, mask, cookie uint32) Event {
+	return w.b.(*inotify).newEvent(name, mask, cookie)
+}
